@@ -10,6 +10,7 @@ Arguments drop : simpl never.
 Arguments take : simpl never.
 Arguments mwrite : simpl never.
 Arguments mcopy : simpl never.
+Arguments mfill : simpl never.
 Arguments raw_read : simpl never.
 Arguments upd : simpl never.
 Arguments ceil_page : simpl never.
@@ -43,6 +44,11 @@ Lemma mcopy_in m src dst n a : dst <= a -> a < dst + n -> mcopy m src dst n a = 
 Proof. intros. unfold mcopy. replace ((dst <=? a) && (a <? dst + n)) with true by lia. reflexivity. Qed.
 Lemma mcopy_out m src dst n a : a < dst \/ dst + n <= a -> mcopy m src dst n a = m a.
 Proof. intros. unfold mcopy. replace ((dst <=? a) && (a <? dst + n)) with false by lia. reflexivity. Qed.
+
+Lemma mfill_out m b n a : a < b \/ b + n <= a -> mfill m b n a = m a.
+Proof. intros. unfold mfill. replace ((b <=? a) && (a <? b + n)) with false by lia. reflexivity. Qed.
+Lemma mfill_in m b n a : b <= a -> a < b + n -> mfill m b n a = CNone.
+Proof. intros. unfold mfill. replace ((b <=? a) && (a <? b + n)) with true by lia. reflexivity. Qed.
 
 Lemma ceil_page_ge n : n <= ceil_page n.
 Proof. unfold ceil_page. nums. lia. Qed.
@@ -380,6 +386,35 @@ Proof.
     assert (Hgo : forall ng, Inv (set_rd s r RIdle ng (rs_log s))).
     { intros ng. constructor; cbn; auto. intros r'. unfold upd. destruct (r' =? r); [exact Logic.I | apply F]. }
     destruct (rs_rd s r); try discriminate; inv_some; apply Hgo.
+  - (* LWOther: bytes of another region land in a fresh extent *)
+    destruct (rs_w s) eqn:W; try discriminate.
+    destruct (fresh_ext s ns nr) eqn:Hf; try discriminate. inv_some.
+    unfold fresh_ext in Hf; apply andb_prop in Hf as [Hf1 Hf2]; apply disjb_spec in Hf1.
+    pose proof (forallb_fresh _ _ _ Hf2) as Hfr.
+    unfold phase_ok in D; rewrite W in D. destruct D as [d1 d2].
+    assert (Hprot : forall st ln l i, prot (rs_reg s) (rs_retired s) st ln -> HDR + ESZ * l <= ln -> i < l ->
+              slot st i < ns \/ ns + nr <= slot st i).
+    { intros st ln l i Hpr Hln Hi. unfold slot.
+      destruct Hpr as [[-> Hr] | (z & Hz & Hr)].
+      - unfold disj in Hf1. nums. lia.
+      - specialize (Hfr _ _ Hz). unfold disj in Hfr. nums. lia. }
+    constructor; cbn.
+    + exact A.
+    + exact B.
+    + intros i Hi. destruct (C i Hi) as [c1 c2]. split; auto. rewrite mfill_out; auto.
+      unfold slot. unfold disj in Hf1. nums. lia.
+    + unfold phase_ok; cbn. split; assumption.
+    + exact E.
+    + intros r. eapply rd_ok_pres; [apply F | cbn; lia | cbn; lia | cbn; auto | ].
+      cbn. intros st ln l i Hpr Hl Hln Hi Hm. rewrite mfill_out; eauto.
+    + exact G.
+  - (* LWOtherGrow *)
+    destruct (rs_w s) eqn:W; try discriminate. split_ifs H. inv_some.
+    pose proof (grown_ge (rs_flen s) target) as Hge.
+    unfold phase_ok in D; rewrite W in D. destruct D as [d1 d2].
+    constructor; cbn; auto.
+    + unfold phase_ok; cbn. split; [exact d1 | lia].
+    + intros r; eapply rd_ok_pres; [apply F | cbn; lia | cbn; lia | cbn; auto | cbn; auto].
 Qed.
 
 Lemma Inv_reach s0 s : Inv s0 -> rs_reach s0 s -> Inv s.
@@ -402,6 +437,37 @@ Proof.
   - intros Hw. unfold phase_ok in D. now rewrite Hw in D.
 Qed.
 
+(* FRAME: a write of the same thread to ANOTHER region whose placement passes the freshness guard changes no
+   byte of this vector's current extent nor of any extent it vacated (the extents live reader snapshots may
+   still point to), and nothing else of the state but the memory map *)
+Definition in_ext (a st z : N) : Prop := st <= a /\ a < st + z.
+Definition own_bytes (s : rs_state) (a : N) : Prop :=
+  in_ext a (r_start (rs_reg s)) (r_res (rs_reg s)) \/ exists st z, In (st, z) (rs_retired s) /\ in_ext a st z.
+
+Lemma other_write_frame s ns nr s' :
+  rs_step s (LWOther ns nr) = Some s' ->
+  (forall a, own_bytes s a -> rs_mem s' a = rs_mem s a) /\
+  rs_reg s' = rs_reg s /\ rs_retired s' = rs_retired s /\ rs_slen s' = rs_slen s /\ rs_hist s' = rs_hist s /\
+  rs_log s' = rs_log s /\ rs_flen s' = rs_flen s /\ (forall r, rs_rd s' r = rs_rd s r).
+Proof.
+  intros H. cbn [rs_step] in H. destruct (rs_w s); try discriminate.
+  destruct (fresh_ext s ns nr) eqn:Hf; try discriminate. injection H as <-. cbn.
+  split; [|repeat split; reflexivity].
+  unfold fresh_ext in Hf; apply andb_prop in Hf as [Hf1 Hf2]; apply disjb_spec in Hf1.
+  pose proof (forallb_fresh _ _ _ Hf2) as Hfr.
+  intros a [Ha | (st & z & Hin & Ha)]; apply mfill_out; unfold in_ext in Ha.
+  - unfold disj in Hf1. lia.
+  - specialize (Hfr _ _ Hin). unfold disj in Hfr. lia.
+Qed.
+
+(* the converse direction of the guard: a placement that overlaps a vacated extent a reader snapshot still points to
+   is NOT a step of the model (the harness reports the real code taking it), and if it were taken the reader would
+   read foreign bytes: witness on the unguarded memory effect *)
+Example other_write_unguarded_clobbers :
+  let m := mwrite (fun _ => CNone) (0 + HDR) [11; 12] in
+  raw_read m 1048576 0 48 1 = RVal 12 /\ raw_read (mfill m 0 4096) 1048576 0 48 1 = RGarbage.
+Proof. vm_compute. split; reflexivity. Qed.
+
 (* the premises are satisfiable and the property is not vacuous: a run with a relocation, a reader that
    snapshots the old extent before it and reads after the new length is published *)
 Definition rs_demo : list rs_label :=
@@ -415,6 +481,20 @@ Example rs_demo_runs :
               /\ r_start (rs_reg s) = 8192
   | None => False end.
 Proof. vm_compute. split; reflexivity. Qed.
+
+(* the same run with writes to a second vector: one placed behind the relocated extent (accepted), one placed over
+   the extent vacated by the relocation while reader 1 still holds its snapshot of it (rejected by the guard) *)
+Definition rs_demo_other : list rs_label :=
+  [LPush 11; LPush 12; LWBegin false; LWCopyFits; LWSetLen; LWPublish;
+   LRLoad 1; LRSnap 1; LRGuard 1;
+   LPush 13; LWBegin false; LWReserve (GRel 8192); LWRelCopy; LWSetLen; LWPublish;
+   LWOther 16384 4096; LRRead 1 1; LRDrop 1].
+Example rs_demo_other_runs :
+  match rs_run (rs_init 0 48 1048576) rs_demo_other with
+  | Some s => rs_log s = [EvRead 1 2 1 (RVal 12); EvLen 1 2] /\ rs_retired s = [(0, 48)]
+              /\ rs_step s (LWOther 0 4096) = None /\ rs_step s (LWOther 8192 64) = None
+  | None => False end.
+Proof. vm_compute. repeat split; reflexivity. Qed.
 
 (* ========================================================================================== *)
 (* COMPRESSED FORMAT *)
@@ -525,3 +605,24 @@ Lemma comp_lens_partial :
   forall st0 rv fl pp s, cs_reach (cs_init st0 rv fl pp) s ->
   lens_mono (cs_log s) /\ forall r b, In (EvLen r b) (cs_log s) -> b <= cs_slen s.
 Proof. intros _ _. exact comp_lens. Qed.
+
+(* FRAME for the compressed model: as other_write_frame *)
+Definition cs_own_bytes (s : cs_state) (a : N) : Prop :=
+  in_ext a (r_start (cs_reg s)) (r_res (cs_reg s)) \/ exists st z, In (st, z) (cs_retired s) /\ in_ext a st z.
+
+Lemma cs_other_write_frame s ns nr s' :
+  cs_step s (KOther ns nr) = Some s' ->
+  (forall a, cs_own_bytes s a -> cs_mem s' a = cs_mem s a) /\
+  cs_reg s' = cs_reg s /\ cs_retired s' = cs_retired s /\ cs_slen s' = cs_slen s /\ cs_hist s' = cs_hist s /\
+  cs_pages s' = cs_pages s /\ cs_blobs s' = cs_blobs s /\ cs_log s' = cs_log s /\ cs_flen s' = cs_flen s /\
+  (forall r, cs_rd s' r = cs_rd s r).
+Proof.
+  intros H. cbn [cs_step] in H. destruct (cs_w s); try discriminate.
+  destruct (cs_fresh_ext s ns nr) eqn:Hf; try discriminate. injection H as <-. cbn.
+  split; [|repeat split; reflexivity].
+  unfold cs_fresh_ext in Hf; apply andb_prop in Hf as [Hf1 Hf2]; apply disjb_spec in Hf1.
+  pose proof (forallb_fresh _ _ _ Hf2) as Hfr.
+  intros a [Ha | (st & z & Hin & Ha)]; apply mfill_out; unfold in_ext in Ha.
+  - unfold disj in Hf1. lia.
+  - specialize (Hfr _ _ Hin). unfold disj in Hfr. lia.
+Qed.
